@@ -531,6 +531,14 @@ def failure_recorded(chk, repo, rule):
 def r6_failed_save(chk, repo):
     chk.describe("C04.R6", "a failing save is recorded on the saver and re-raised; a closed saver refuses further chunks")
     failure_recorded(chk, repo, "C04.R6")
+    ads = repo.func("Context._add_saver", "strax/context.py")
+    hs_ = [h for t in walk_body(ads.node) if isinstance(t, ast.Try) for h in t.handlers]
+    chk.check(len(hs_) >= 1, "C04.R6", ads, None, "Context._add_saver no longer skips frontends that cannot save", site_text="_add_saver: except DataNotAvailable")
+    for h in hs_:
+        names = handler_names(h)
+        swallow = not any(isinstance(x, ast.Raise) for x in ast.walk(h))
+        chk.check(not swallow or (names is not None and set(n_.split(".")[-1] for n_ in names) <= {"DataNotAvailable"}), "C04.R6", ads, h, f"_add_saver swallows {sorted(names) if names else 'every exception'} while a saver is being created: an I/O error at that point (temp directory, first metadata write) silently drops the saver, nothing is stored and the request reports success",
+                  site_text="_add_saver: only DataNotAvailable (frontend cannot save) is skipped", site={"function": ads.qualname, "rule": "saver construction failures surface"})
     sv = repo.func("Saver.save", COMMON)
     scfg = cfg_of(sv)
     hits = [n for n in scfg.stmt_nodes() if isinstance(n.stmt, ast.Raise) and ("self.closed", True) in scfg.guard_facts(n)]
@@ -542,6 +550,8 @@ def r6_failed_save(chk, repo):
 
 
 WITNESSES = [
+    W("I/O errors while creating a saver are skipped", "C04.R6", "strax/context.py",
+      "except strax.DataNotAvailable:\n                # This frontend cannot save. Too bad.", "except (strax.DataNotAvailable, OSError):\n                # This frontend cannot save. Too bad."),
     W("close failure not recorded (the original defect)", "C04.R6", COMMON,
       "try:\n                    self.close(wait_for=pending)\n                except Exception as e:\n                    # Closing (last metadata, final rename) can fail too:\n                    # log it for the final check, unless we are failing already\n                    if self.got_exception is None:\n                        self.got_exception = e\n                    raise",
       "self.close(wait_for=pending)"),
